@@ -682,6 +682,61 @@ theorem ua_total (bs : Bytes) : ∃ u r, rdUA.dec bs = .ok (u, r) := by
   rw [dec_bind_of_ok (dec_readPad 2 bs), dec_bind_of_ok (dec_allocate _ _)]
   exact ⟨_, _, dec_readPad _ _⟩
 
+/-! ### exec status -/
+
+theorem reads_xst_conf : Reads rdXst [1] XStatus.conf := by
+  unfold rdXst
+  have h := reads_bind (f := fun r => if r = [1] then (pure XStatus.conf : R XStatus) else do
+      let l ← readPad 4
+      allocate (fromBE (l.take 2))
+      let m ← readPad (fromBE (l.take 2))
+      pure (XStatus.fail m)) (reads_readPad (xs := [1]) rfl) (by simpa using reads_pure XStatus.conf)
+  simpa using h
+
+theorem reads_xst_fail {m : Bytes} (h : m.length ≤ 65535) :
+    Reads rdXst ([2] ++ (toBE 2 m.length ++ [0, 0]) ++ m) (XStatus.fail m) := by
+  unfold rdXst
+  have hl : (toBE 2 m.length ++ [0, 0] : Bytes).length = 4 := by simp [toBE_length]
+  have htake : (toBE 2 m.length ++ [0, 0] : Bytes).take 2 = toBE 2 m.length := by
+    rw [List.take_left' (toBE_length 2 _)]
+  have hfrom : fromBE ((toBE 2 m.length ++ [0, 0] : Bytes).take 2) = m.length := by
+    rw [htake, fromBE_toBE 2 _ (by omega)]
+  rw [List.append_assoc]
+  refine reads_bind (reads_readPad (xs := [2]) rfl) ?_
+  rw [if_neg (by decide)]
+  refine reads_bind (reads_readPad hl) ?_
+  rw [hfrom]
+  refine reads_bind_nil (reads_allocate _) ?_
+  exact reads_map XStatus.fail (reads_readPad rfl)
+
+theorem post_xst : Post rdXst (fun s => match s with | .conf => True | .fail m => m.length ≤ 65535) := by
+  unfold rdXst
+  refine post_bind (post_true _) fun r _ => ?_
+  split
+  · intro bs v rr h
+    rw [dec_pure] at h
+    cases h
+    trivial
+  · refine post_bind (post_readPad 4) fun l hl => post_bind (post_true _) fun _ _ =>
+      post_bind (post_readPad _) fun m hm => ?_
+    intro bs v rr h
+    rw [dec_pure] at h
+    cases h
+    show m.length ≤ 65535
+    have := fromBE_lt (l.take 2)
+    have h2 : (l.take 2).length = 2 := by simp [hl]
+    rw [h2] at this
+    omega
+
+/-- `getStatus` returns for every input -/
+theorem xst_total (bs : Bytes) : ∃ s r, rdXst.dec bs = .ok (s, r) := by
+  unfold rdXst
+  rw [dec_bind_of_ok (dec_readPad 1 bs)]
+  split
+  · exact ⟨_, _, dec_pure _ _⟩
+  · rw [dec_bind_of_ok (dec_readPad 4 _), dec_bind_of_ok (dec_allocate _ _), dec_bind_of_ok (dec_readPad _ _)]
+    exact ⟨_, _, dec_pure _ _⟩
+
 /-! ### port-forward requests -/
 
 def PFFits (p : PF) : Prop := (p.netType = 1 ∨ p.netType = 2 ∨ p.netType = 3) ∧ p.addr.length ≤ 65535
